@@ -21,6 +21,7 @@ listed as TRUSTED mathematical facts in the evidence, see LEMMA_TEXT):
   be_lt(b)           be(b) < 256**len(b)
   modpow_reduce(b, e, m)   m > 0 ==> modpow(b % m, e, m) == modpow(b, e, m)
   pow2_add(a, b)     a, b >= 0 ==> 2**(a + b) == 2**a * 2**b
+  mulmod_reduce(a, b, m)   m > 0 ==> ((a % m) * (b % m)) % m == (a * b) % m
 """
 import z3
 
@@ -35,7 +36,8 @@ SYS_POS0 = z3.Int('sys_pos0')
 
 LEMMA_TEXT = ['be(a ++ b) == be(a) * 256**len(b) + be(b)   (positional notation; induction on len(b))',
               'be(b) < 256**len(b)',
-              '(b mod m)**e == b**e (mod m) for m > 0', '2**(a + b) == 2**a * 2**b for a, b >= 0',
+              '(b mod m)**e == b**e (mod m) for m > 0   (Mathlib: Int.ModEq.pow)', '2**(a + b) == 2**a * 2**b for a, b >= 0   (pow_add)',
+              '((a mod m) * (b mod m)) mod m == (a * b) mod m for m > 0   (Int.mul_emod)',
               'ground facts attached to the uninterpreted symbols pow2, ipow, modpow, modinv, gcd, bitlen, be, le, rev '
               '(vf/pyvc/models.py, ops.py): each is an instance of the defining property of the python operation it names']
 
@@ -126,6 +128,13 @@ def sf_be_lt(E, st, args, kw):
 def sf_pow2_add(E, st, args, kw):
     a, b = (zint(x) for x in args)
     t = z3.Implies(z3.And(a >= 0, b >= 0), ops.pow2(E, st, a + b) == ops.pow2(E, st, a) * ops.pow2(E, st, b))
+    st.fact(t)
+    return val(st, mk_bool(t))
+
+
+def sf_mulmod_reduce(E, st, args, kw):
+    a, b, m = (zint(x) for x in args)
+    t = z3.Implies(m > 0, ((a % m) * (b % m)) % m == (a * b) % m)
     st.fact(t)
     return val(st, mk_bool(t))
 
@@ -248,7 +257,7 @@ def sf_kwargs_only(E, st, args, kw):
 
 
 FORMS = {'ival': sf_ival, 'ipow': sf_ipow, 'modpow': sf_modpow, 'modinv': sf_modinv, 'gcd': sf_gcd, 'bitlen': sf_bitlen,
-         'bitand': sf_bitand, 'bitor': sf_bitor, 'be_cat': sf_be_cat, 'be_lt': sf_be_lt, 'modpow_reduce': sf_modpow_reduce, 'pow2_add': sf_pow2_add,
+         'bitand': sf_bitand, 'bitor': sf_bitor, 'be_cat': sf_be_cat, 'be_lt': sf_be_lt, 'modpow_reduce': sf_modpow_reduce, 'mulmod_reduce': sf_mulmod_reduce, 'pow2_add': sf_pow2_add,
          'lemma': sf_lemma, 'systape': sf_systape, 'tape_of': sf_tape_of, 'tape': sf_tape, 'tapei': sf_tapei, 'kwarg': sf_kwarg, 'kwargs_only': sf_kwargs_only}
 for _nm, _fn in FORMS.items():
     interp.SPEC_BUILTINS.setdefault(_nm, BuiltinV('spec.' + _nm, _fn))
